@@ -520,5 +520,40 @@ theorem laea_oblique_equal_area (p : Parsed ℝ) (s : Laea.Stored ℝ) (lon phi 
     field_simp
     ring
 
+/-- **the projection centre `(lon_0, lat_0)` maps to the false origin `(x_0, y_0)`** (tmerc, utm):
+with the offset `zb` the constructor stores (`C13.tmerc_pre_precompute`), for every ellipsoid,
+scale and false origin and every latitude of origin whose conformal latitude `z` lies between the
+poles -/
+theorem tmerc_centre_to_false_origin (ellps : Ellipsoid ℝ) (lon0 x0 y0 qs lat0 z : ℝ)
+    (hz : Ellipsoid.latitudeFwdSeries lat0 ellps.conformalCoefficients = z)
+    (hz1 : -(Real.pi / 2) < z) (hz2 : z < Real.pi / 2) :
+    Tmerc.fwd ⟨ellps, lon0, x0, ellps.conformalCoefficients, Tmerc.tmCoefficients ellps, qs,
+      y0 - qs * (z + Series.sin (2 * z) (Tmerc.tmCoefficients ellps).fwd)⟩ lon0 lat0 = some (x0, y0) := by
+  have one : (@OfScientific.ofScientific ℝ Scalar.instOfScientific 10 true 1) = 1 := by
+    simp [OfScientific.ofScientific, Scalar.ofSci, Lit.toReal]
+  have two : (@OfScientific.ofScientific ℝ Scalar.instOfScientific 20 true 1) = 2 := by
+    simp [OfScientific.ofScientific, Scalar.ofSci, Lit.toReal]; norm_num
+  have hgt : Scalar.gt (0 : ℝ) (Tmerc.limit : ℝ) = false := by
+    have : (0 : ℝ) < Tmerc.limit := by
+      simp [Tmerc.limit, OfScientific.ofScientific, Scalar.ofSci, Lit.toReal]
+    simp [Scalar.gt, not_lt.mpr this.le]
+  have hrec : Scalar.recip (Scalar.hypot (Real.sin z) (Real.cos z)) = (1 : ℝ) := by
+    have h1 : Real.sin z * Real.sin z + Real.cos z * Real.cos z = 1 := by
+      have := Real.sin_sq_add_cos_sq z; nlinarith
+    simp [Scalar.recip, scalar_hypot, h1]
+  unfold Tmerc.fwd
+  simp only [hz, sub_self, scalar_sin, scalar_cos, Real.sin_zero, Real.cos_zero, mul_one, hrec, one, two, zero_mul,
+    mul_zero, scalar_asinh, Real.arsinh_zero, TmercLemmas.atan2_sin_cos z hz1 hz2]
+  simp only [TmercLemmas.complexSinTrig_imag_zero, add_zero,
+    scalar_abs, abs_zero, hgt, Bool.false_eq_true, if_false, zero_add, Series.sin, scalar_sin, scalar_cos, two]
+  congr 1
+  refine Prod.ext (by simp) ?_
+  show _ = y0
+  have hs : Real.sin z * (Real.cos z * 2) = Real.sin (2 * z) := by rw [Real.sin_two_mul]; ring
+  have hc : Real.cos z * (Real.cos z * 2) - 1 = Real.cos (2 * z) := by rw [Real.cos_two_mul]; ring
+  have h1 : (2 : ℝ) - 1 = 1 := by norm_num
+  rw [hs, hc, h1, TmercLemmas.complexSinTrig_real]
+  ring
+
 end C05
 end Geodesy
